@@ -121,8 +121,8 @@ def jobs_for(pid, tier):
                                              types=(12,), quals=(0, 1, 2, 4, 6))))
     elif pid == "C13":
         words = BUILTIN_WORDS + ["default", "C", "C++", "nullptr", "in", "Int", "intt", "auto", "false", "this"]
-        J.append(("routes", base_consts(["get_identifier", "get_as_type_id", "get_label", "get_linkage",
-                                         "get_decltype"],
+        J.append(("routes", base_consts(["get_identifier", "get_identifier_s", "get_as_type_id", "get_label", "get_linkage",
+                                         "get_linkage_s", "get_decltype"],
                                         2, types=(), exprs=(), ids=tuple(range(38, 71)), words=words)))
         J.append(("mixed", base_consts(["get_identifier", "get_as_type_id", "get_label", "get_pointer",
                                         "get_symbol"],
@@ -140,7 +140,7 @@ RECORD_OPS = {
             "get_array"],
     "C09": TYPE_OPS + ["get_symbol", "get_label", "get_this", "get_literal", "make_literal", "get_identifier", "mk_class",
                        "get_template_id", "mk_expr_list"],
-    "C13": ["get_identifier", "get_as_type_id", "get_label", "get_linkage", "get_decltype", "get_symbol",
+    "C13": ["get_identifier", "get_identifier_s", "get_linkage_s", "get_as_type_id", "get_label", "get_linkage", "get_decltype", "get_symbol",
             "get_this", "get_calling_convention", "get_transfer", "get_literal"],
 }
 
